@@ -160,9 +160,9 @@ def taint_text(s, va, vk, tkey, same=False):
     if how == 'delete':
         return ['del %s' % v]
     if how == 'handover':
-        return ['H(%s)' % v]
+        return ['H(o=%s)' % v] if same else ['H(%s)' % v]            # (same: handed over BY KEYWORD)
     if how == 'handover_expr':
-        return ['H([%s] if SWT else None)' % v]
+        return ['H(o=[%s] if SWT else None)' % v] if same else ['H([%s] if SWT else None)' % v]
     if how == 'contains':
         return ['%r in %s' % (tkey, v)]
     if how == 'item_set':
@@ -327,7 +327,7 @@ def build(prog, o, ws, choice, variant):
     lm = {}
     import types as _types
     extra = {'NSX': _types.SimpleNamespace(), 'SWT': True, 'SWF': False, 'CM': contextlib.nullcontext(), 'CMV': CMV, 'G': lambda *a, **k: None,
-             'H': REC.handover, 'OA': (), 'OK': {}, 'CALLED': lambda: REC.callee_called(lm)}
+             'H': (lambda *a, **k: [REC.handover(x) for x in list(a) + list(k.values())] and None), 'OA': (), 'OK': {}, 'CALLED': lambda: REC.callee_called(lm)}
     g, fname = progs.compile_module(full, extra)
     lm.update(linemap)
     return g, fname, full
@@ -418,6 +418,9 @@ def program_event(tid, prog, o, ws, choice, kwmax=2, variants=(1, 2, 3)):
     import sigtools
     from sigtools import signatures
     taintfree = all(s['k'] != 'taint' and s.get('arg', '-') == '-' for s in prog)
+    # the explicit declaration is also the expected value when the only "taints" are reads of the TUPLE (handing *args to other code cannot change it)
+    declarable = all((s['k'] != 'taint' and s.get('arg', '-') == '-') or (s['k'] == 'taint' and s['tgt'] == 'A' and s['how'] in ('handover', 'handover_expr'))
+                     for s in prog)
     fns = absig.FnTable()
     fnames = []
     try:
@@ -480,7 +483,7 @@ def program_event(tid, prog, o, ws, choice, kwmax=2, variants=(1, 2, 3)):
     return {'tid': tid, 'op': 'afprog', 'prog': prog, 'o': o, 'ws': ws,
             'wof': [c.get('w', 0) for c in choice], 'nn': [c.get('n', 0) for c in choice], 'names': [c.get('names', []) for c in choice],
             'real_calls': rc, 'obs_execs': obs, 'ghost_exc': ghost_exc, 'reported': reported, 'plain': plain, 'declared': decl,
-            'taintfree': taintfree, 'variants': vres, 'bad_outer': bo, 'bad_inner': bi, 'other_exc': other,
+            'taintfree': taintfree, 'declarable': declarable, 'variants': vres, 'bad_outer': bo, 'bad_inner': bi, 'other_exc': other,
             'maxpos': maxpos, 'kwpool': names, 'kwmax': kwmax,
             'case': {'prog': prog, 'o': o, 'ws': ws, 'choice': choice, 'src': src}}
 
